@@ -9,6 +9,7 @@ verif), starts one worker process per core, merges their summaries, writes
 /verif/evidence/<property>.json and prints VIOLATION / KNOWN-FINDING lines.
 exit 0 = property held on everything explored, 1 = violation, 2 = infrastructure.
 """
+import re
 import json, os, subprocess, sys, time, shutil
 
 VERIF = os.path.dirname(os.path.dirname(os.path.abspath(__file__)))
@@ -82,6 +83,9 @@ def replay(prop, path):
     binp = build(prop, race=PROPS[prop].get("race", False))
     e = env_base()
     e.update(VERIF_PROP=prop, VERIF_REPLAY=os.path.abspath(path))
+    os.makedirs(BIN, exist_ok=True)
+    hang_out = os.path.join(BIN, "replay-%d.json" % os.getpid())
+    e["VERIF_OUT"] = hang_out
     r = subprocess.run([binp, "-test.run", "TestSim", "-test.count=1", "-test.timeout=30m"], cwd=SIM, env=e, capture_output=True, text=True)
     sys.stdout.write(r.stdout)
     if "REPRODUCED property=" in r.stdout and "NOT-REPRODUCED" not in r.stdout:
@@ -93,6 +97,17 @@ def replay(prop, path):
         rf = json.load(open(path))
     except (OSError, ValueError):
         rf = {}
+    if rf.get("hang") and r.returncode == 3 and os.path.exists(hang_out + ".hang"):
+        txt = open(hang_out + ".hang").read()
+        os.remove(hang_out + ".hang")
+        if "github.com/zitadel/oidc/v3/pkg" in txt:
+            print("REPRODUCED non-termination: " + txt[:200].replace("\n", " "))
+            print("VIOLATION property=%s replay=%s" % (prop, path))
+            sys.exit(1)
+    if rf.get("crash") and r.returncode != 0 and "fatal error: stack overflow" in (r.stdout + r.stderr) and "github.com/zitadel/oidc/v3/pkg" in (r.stdout + r.stderr):
+        print("REPRODUCED process crash: fatal error: stack overflow")
+        print("VIOLATION property=%s replay=%s" % (prop, path))
+        sys.exit(1)
     if rf.get("crash") and r.returncode != 0 and "panic:" in (r.stdout + r.stderr) and "verif/sim" not in (r.stdout + r.stderr).split("panic:", 1)[1].split("\n\n")[1 if (r.stdout + r.stderr).split("panic:", 1)[1].count("\n\n") else 0]:
         print("REPRODUCED process crash: " + (r.stdout + r.stderr).split("panic:", 1)[1][:300])
         print("VIOLATION property=%s replay=%s" % (prop, path))
@@ -169,23 +184,45 @@ def main():
                 cur = int(open(os.path.join(outdir, "w%d.json.cur" % w)).read())
             except (OSError, ValueError):
                 continue
+            kind = "process-crash"
+            hang_path = os.path.join(outdir, "w%d.json.hang" % w)
+            if rc == 3 and os.path.exists(hang_path):
+                # the in-process watchdog: no seam of the simulator was reached for a long stretch of processor time. It is
+                # the library's doing when a goroutine that is on the processor has library frames and no harness frame
+                # above them (the harness calls the library, not the other way round, except for storage and network seams)
+                log = "panic: " + open(hang_path).read()
+                blocks = [b for b in log.split("\n\n") if re.match(r"goroutine \d+[^\[]*\[(running|runnable)", b) and "kernel.StartWatchdog" not in b]
+                pick = None
+                for b in blocks:
+                    lines = [l for l in b.splitlines() if l and not l.startswith("\t")]
+                    lib = [k for k, l in enumerate(lines) if "github.com/zitadel/oidc/v3/pkg" in l]
+                    har = [k for k, l in enumerate(lines) if "verif/sim" in l]
+                    if lib and (not har or min(lib) < min(har)):
+                        pick = b
+                        break
+                if pick is None:
+                    continue
+                kind = "non-termination"
+                log = log[:log.find("goroutine ")] + pick + "\n\n"
+            elif "fatal error: stack overflow" in log and "panic:" not in log:
+                log = log.replace("fatal error: stack overflow", "panic: fatal error: stack overflow (unbounded recursion)", 1)
             i = log.find("panic:")
             j = log.find("goroutine ", i)
             if i < 0 or j < 0:
                 continue
             block = log[j:].split("\n\n")[0]
-            if "verif/sim" in block or "github.com/zitadel/oidc/v3/pkg" not in block:
+            if kind == "process-crash" and ("verif/sim" in block.split("github.com/zitadel/oidc/v3/pkg")[0] or "github.com/zitadel/oidc/v3/pkg" not in block):
                 continue
             top = [l.strip() for l in block.splitlines() if "github.com/zitadel/oidc/v3/pkg" in l and "(" in l]
             fn = "unknown"
             if top:
                 fn = top[0].rsplit("/", 1)[-1]
                 fn = fn[:fn.rfind("(")] if "(" in fn else fn
-            sig = "%s/process-crash/%s" % (prop, fn)
+            sig = "%s/%s/%s" % (prop, kind, fn)
             rpath = os.path.join(os.environ.get("VERIF_REPLAY_DIR") or os.path.join(VERIF, "replays"), "%s-crash-%d.json" % (prop, cur))
-            json.dump({"property": prop, "signature": sig, "crash": True, "detail": log[i:i + 600], "spec": {"prop": prop, "seed": cur},
+            json.dump({"property": prop, "signature": sig, "crash": True, "hang": kind == "non-termination", "detail": log[i:i + 600], "spec": {"prop": prop, "seed": cur},
                        "original_length": 0, "minimised_length": 0, "trace": []}, open(rpath, "w"), indent=1)
-            crash_viol.append({"signature": sig, "prop": prop, "detail": "the process died: " + log[i:i + 200].replace("\n", " "), "seed": cur, "replay": rpath, "count": 1})
+            crash_viol.append({"signature": sig, "prop": prop, "detail": ("the request never returned: " if kind == "non-termination" else "the process died: ") + log[i:i + 300].replace("\n", " "), "seed": cur, "replay": rpath, "count": 1})
         if crash_viol and len(crash_viol) == len(failed):
             known = known_findings()
             for v in crash_viol[:3]:
